@@ -48,7 +48,9 @@ def make_script_strategy(script=None, observer=None, triggers=None):
     phases plus notify(action)/finalize(strategy); triggers: callable(strategy) -> list of triggers."""
     from demeter import Strategy
 
-    class ScriptStrategy(Strategy):
+    _made[0] += 1
+
+    class _Hooks(Strategy):
         def __init__(self):
             super().__init__()
             self.script = script or {}
@@ -89,7 +91,17 @@ def make_script_strategy(script=None, observer=None, triggers=None):
             if self.observer is not None and hasattr(self.observer, "finalize"):
                 self.observer.finalize(self)
 
-    return ScriptStrategy()
+    if _made[0] % 2:
+        # every other strategy gets all its hooks by inheritance from an intermediate class (a family of strategies sharing a
+        # base): the hooks of a strategy are its attributes, wherever in the class hierarchy they are defined
+        class ScriptStrategy(_Hooks):
+            pass
+
+        return ScriptStrategy()
+    return _Hooks()
+
+
+_made = [0]
 
 
 def build_actuator(markets, prices, quote_token, assets, strategy=None, interval="1min", allow_negative_balance=False):
